@@ -151,8 +151,11 @@ Definition py_format (tpl : string) (fields : list (string * string)) : string :
   py_format_aux (S (String.length tpl)) tpl fields.
 
 (* wrap_file: submodules = Some names for the main file, None for a submodule file *)
-Definition r_file (q : pquirks) (c : cfg) (doc : option (string -> string -> list string -> string))
-           (tpl module_name : string) (submodules : option (list string)) (content : list item) : string :=
+Definition sub_decl (s : string) : string := "void " ++ s ++ "(py::module_ &);".
+Definition sub_init (s : string) : string := s ++ "(m_);".
+Definition file_fields (q : pquirks) (c : cfg) (doc : option (string -> string -> list string -> string))
+           (module_name : string) (submodules : option (list string)) (content : list item)
+  : list (string * string) :=
   let o := wrap_module q c doc content in
   let includes := String.concat "" (o_includes o)
                   ++ (if boost c then "#include <boost/serialization/export.hpp>" else "") in
@@ -162,8 +165,19 @@ Definition r_file (q : pquirks) (c : cfg) (doc : option (string -> string -> lis
                     | None => "void " ++ module_name ++ "(py::module_ &m_)"
                     end in
   let subs := match submodules with Some l => l | None => [] end in
-  py_format tpl
-            [("module_def", module_def); ("module_name", module_name); ("includes", includes);
-             ("wrapped_namespace", r_items (o_items o)); ("boost_class_export", export);
-             ("submodules", join nl (map (fun s => "void " ++ s ++ "(py::module_ &);") subs));
-             ("submodules_init", join nl (map (fun s => s ++ "(m_);") subs))].
+  [("module_def", module_def); ("module_name", module_name); ("includes", includes);
+   ("wrapped_namespace", r_items (o_items o)); ("boost_class_export", export);
+   ("submodules", join nl (map sub_decl subs));
+   ("submodules_init", join nl (map sub_init subs))].
+
+Definition r_file (q : pquirks) (c : cfg) (doc : option (string -> string -> list string -> string))
+           (tpl module_name : string) (submodules : option (list string)) (content : list item) : string :=
+  py_format tpl (file_fields q c doc module_name submodules content).
+
+(* scripts/pybind_wrap.py: --top_module_namespaces string -> list with the leading "" *)
+Definition top_of_arg (s : string) : list string :=
+  let l := split_on "::" s in
+  match l with
+  | first :: _ => if String.eqb first "" then l else "" :: l
+  | [] => [""]
+  end.
